@@ -144,6 +144,20 @@ class SqwModel(Model):
         dt = AbsDtype('float64' if fmt[-1] == 'd' else 'float32', absio._order(fmt[0] if len(fmt) == 2 and fmt[0] != '@' else '='))
         return (absio.unpack_value(dt, absio.units_of(buf), f'struct.unpack at {interp.where(node)}'),)
 
+    def x_struct_Struct(self, interp, args, kwargs, node):
+        model = self
+
+        class _Struct:
+            """struct.Struct(fmt): the compiled form of the same pack / unpack"""
+            format = args[0]
+
+            def pack(self, *vals):
+                return model.x_struct_pack(interp, [args[0], *vals], {}, interp.cur_node)
+
+            def unpack(self, buf):
+                return model.x_struct_unpack(interp, [args[0], buf], {}, interp.cur_node)
+        return _Struct()
+
     def x_builtins_int_from_bytes(self, interp, args, kwargs, node):
         buf, order = args[0], (args[1] if len(args) > 1 else kwargs.get('byteorder', 'big'))
         if isinstance(buf, AbsBytes):
